@@ -3,6 +3,7 @@ the item/slot invariant of contracts/iset_core.py (I1, I2), the sorted-disjoint 
 (all-pairs form) and the link between them:
   I4  a slot holds _MISSING exactly when a dead interval covers it
   I5  every dead interval ends inside the slot list
+  I6  the last slot (if any) is live - what _cull re-establishes after every removal and pop() relies on
 Abstract view: the keys of the index map ordered by their slots.  remove(item): the key set loses exactly `item` and the
 relative order of all other keys is unchanged; KeyError (state untouched) exactly for a non-member.
 
@@ -24,7 +25,8 @@ def link(p, v):
     i, j = z3.Ints('il jl')
     return [('I4 a slot is _MISSING exactly when a dead interval covers it', z3.ForAll([i], z3.Implies(
         z3.And(0 <= i, i < p.len), (z3.Select(p.elems, i) == MISSING) == base.covered(v, i)))),
-            ('I5 every dead interval ends inside the slot list', z3.ForAll([j], z3.Implies(z3.And(0 <= j, j < v.n), v.stop(j) <= p.len)))]
+            ('I5 every dead interval ends inside the slot list', z3.ForAll([j], z3.Implies(z3.And(0 <= j, j < v.n), v.stop(j) <= p.len))),
+            ('I6 the last slot is live', z3.Implies(p.len > 0, z3.Select(p.elems, p.len - 1) != MISSING))]
 
 
 def wf_full(c, st=None):
@@ -97,7 +99,8 @@ def cull_ensures(c):
                            ('the three parts stay the same objects', core.same_parts(o, n))]
 
 
-cull = Contract('IndexedSet._cull', setup=core.setup_self, requires=lambda c: wf_full(c), ensures=cull_ensures, modifies=ALL_MOD)
+cull = Contract('IndexedSet._cull', setup=core.setup_self, requires=lambda c: [(l, f) for l, f in wf_full(c) if not l.startswith('I6')],
+                ensures=cull_ensures, modifies=ALL_MOD)     # I6 is what _cull re-establishes, so it is not required at entry
 cull.note = 'ASSUMED contract (not verified)'
 
 
@@ -118,7 +121,59 @@ clear = Contract('IndexedSet.clear', setup=core.setup_self, requires=lambda c: w
                  ensures=lambda c: post_full(c) + [(l, f) for l, f in core.clear_ensures(c) if not l.startswith('wf.')],
                  modifies=lambda c: list(CORE_MOD) + [('DeadList', 'len')])
 
-CONTRACTS = {c.qualname: c for c in [remove, discard, cull, add, clear, base.add_dead]}
+
+# ---- pop(index): the last item for None / -1 / len-1, otherwise the item in the index-th live slot ---------------------------------
+from pyvc.values import SInt  # noqa: E402
+
+
+def pop_setup(eng, st, variant=None):
+    return dict(self=SRef(IS, z3.Int('self')), index=SNone() if variant == 'last' else SInt(z3.Int('arg_index')))
+
+
+def pop_requires(c):
+    out = wf_full(c) + [base.wf(base.V(c))[1]]
+    if not isinstance(c.sv('index'), SNone):
+        out.append(('an index that is -1 or non-negative (other negative indices are not under contract)', c.a('index') >= -1))
+    return out
+
+
+def real_witness(v, idx, r):
+    kk = z3.Int('kw')
+    return z3.Exists([kk], z3.And(0 <= kk, kk <= v.n, r == idx + v.ds(kk), z3.Implies(kk >= 1, r >= v.stop(kk - 1)),
+                                  z3.Implies(kk < v.n, r < v.start(kk))))
+
+
+def pop_ensures(c):
+    o, n = P(c, c.old), P(c)
+    ov = base.V(c, c.old)
+    ret = c.r()
+    k = z3.Const('k', Val)
+    is_last = z3.BoolVal(True) if isinstance(c.sv('index'), SNone) else z3.Or(c.a('index') == -1, c.a('index') == o.size - 1)
+    out = post_full(c) + [
+        ('the returned item was a member', z3.Select(o.dom, ret)),
+        ('exactly the returned item leaves the key set', z3.ForAll([k], z3.Select(n.dom, k) == z3.And(z3.Select(o.dom, k), k != ret))),
+        ('the other items keep their relative order', order_kept(o, n)),
+        ('None, -1 or len-1: the returned item is the last one (it held the greatest slot)', z3.Implies(is_last, z3.ForAll([k], z3.Implies(
+            z3.Select(o.dom, k), z3.Select(o.val, k) <= z3.Select(o.val, ret))))),
+        ('the three parts stay the same objects', core.same_parts(o, n))]
+    if not isinstance(c.sv('index'), SNone):
+        out.append(('otherwise: the returned item sat in the index-th live slot (index + the length of the dead intervals to its left)',
+                    z3.Implies(z3.Not(is_last), real_witness(ov, c.a('index'), z3.Select(o.val, ret)))))
+    return out
+
+
+def pop_raises(c):
+    return [('IndexError leaves the state unchanged', unchanged_all(c))]
+
+
+pop = Contract('IndexedSet.pop', setup=pop_setup, requires=pop_requires, ensures=pop_ensures, raises={'IndexError': pop_raises},
+               modifies=ALL_MOD, facts=core.facts, variants=['last', 'index'])
+
+
+from contracts.iset_real import real_call  # noqa: E402   (verified in contracts/iset_real.py)
+
+CONTRACTS = {c.qualname: c for c in [remove, discard, cull, add, clear, base.add_dead, pop, real_call]}
+PUBLIC = [('IndexedSet.pop', ['last', 'index'])]
 FUNCS = ['IndexedSet.remove', 'IndexedSet.discard', 'IndexedSet.add', 'IndexedSet.clear']
 EXTERNALS = dict(base.EXTERNALS)
 
